@@ -1146,9 +1146,15 @@ func (e *Engine) siteOK(pos token.Pos) bool {
 	}
 	file := e.prog.Fset.Position(pos).Filename
 	if v, ok := e.siteCache[file]; ok {
+		if e.pointTrace && e.cur != nil {
+			e.cur.sitePos = e.pos(pos)
+		}
 		return v
 	}
 	base := filepath.Base(file)
+	if e.pointTrace && e.cur != nil {
+		e.cur.sitePos = e.pos(pos)
+	}
 	ok := filepath.Dir(file) == e.pkgDir && !strings.HasPrefix(base, "zz_verif_m_") && !strings.HasPrefix(base, "zz_verif_rt_")
 	e.siteCache[file] = ok
 	return ok
